@@ -18,6 +18,11 @@ line `# kind: <kind>` tells checks/c17.py what is expected of it:
 import os
 
 SYNTH = [
+    # NUMA and PU OS indexes that are NOT in logical order (a consulting call that reorders a level array in place,
+    # e.g. sorts by os_index, is invisible on ordered topologies)
+    "Package:4 [NUMANode(indexes=2,0,3,1)] Core:2 PU:2(indexes=15,3,9,1,12,6,0,7,2,14,4,10,5,13,8,11)",
+    "NUMANode:4(indexes=3,1,2,0) Core:2 PU:2(indexes=7,5,3,1,6,4,2,0)",
+    "Package:2 [NUMANode(indexes=1,0)] L3:2 Core:2 PU:2(indexes=2*8:1*2)",
     "pack:2 numa:2 core:2 pu:2",
     "numa:4 core:2 pu:2",
     "pack:2 [numa] l3:2 core:2 pu:2",
@@ -33,7 +38,8 @@ FLAG_NO_DISTANCES = 1 << 7
 FLAG_NO_MEMATTRS = 1 << 8
 FLAG_NO_CPUKINDS = 1 << 9
 
-CONS = ["traverse", "typeprint", "distget", "distrelease", "mameta", "localnodes", "cpukinds", "sets", "bitmap", "exportsynth"]
+CONS = ["traverse", "typeprint", "distget", "distrelease", "mameta", "localnodes", "cpukinds", "sets", "bitmap", "exportsynth",
+        "defaultnodeset", "defaultnodeset", "helpers"]
 
 
 def xml_path(repo, name):
@@ -237,6 +243,7 @@ def indep_faulty(rng, repo, docs, T, ordered):
     keeps one more topology alive for its whole history.  ordered: a barrier after the first round."""
     L = ["# kind: indep-faulty",
          "init 63", "load 63 0 bind=0 xml " + docs[sorted(docs)[0]]["plain"], "cons 63 exportxml",   # statics warm
+         "init 62", "load 62 0 bind=0 xml /nonexistent/file.xml", "destroy 62",                        # libxml2's missing-file path too
          "threads %d" % T]
     for i in range(T):
         keep = 32 + i
